@@ -136,7 +136,7 @@ let run (prop : string) (input : S.t) (observed : S.t) : S.t * string =
   let docs = match input with
     | S.L (S.A ("docs" | "wfdocs") :: ds) ->
       List.map (function
-          | S.L (S.A "doc" :: mode :: items) -> ((match mode with S.A "ok" -> false | _ -> true), List.map item_of items)
+          | S.L (S.A "doc" :: mode :: items) -> ((match mode with S.A "ok" | S.A "api" | S.L [S.A "files"; _] -> false | _ -> true), List.map item_of items)
           | x -> failwith ("schema: bad doc " ^ S.to_string x)) ds
     | _ -> failwith "schema: input" in
   let results = Model.loads_m [] docs in
@@ -236,7 +236,7 @@ let run17 (input : S.t) (observed : S.t) : S.t * string =
     | S.L [S.A "intro"; _; S.L [S.A "incl"; b]; S.L (S.A "lookups" :: ns); S.L (S.A "docs" :: ds)] ->
       (S.int b <> 0, List.map n ns,
        List.map (function
-           | S.L (S.A "doc" :: mode :: items) -> ((match mode with S.A "ok" -> false | _ -> true), List.map item_of items)
+           | S.L (S.A "doc" :: mode :: items) -> ((match mode with S.A "ok" | S.A "api" | S.L [S.A "files"; _] -> false | _ -> true), List.map item_of items)
            | x -> failwith ("schema: bad doc " ^ S.to_string x)) ds)
     | _ -> failwith "c17: input" in
   let results = Model.loads_m [] docs in
